@@ -395,3 +395,181 @@ def install_splitting():
         probe.install(ode, sch + '_splitting', Splitting(sch))
     ode.__vt_c10__ = True
     return ode
+
+
+# ================================================================================ C11: TDVP and Krylov ==========
+
+TDVP = None  # state of the outermost TDVP call in flight: {'H': dense operator, 'trace': [...], 'name': ...}
+
+
+def _gram_right_err(cr):
+    r1 = cr.shape[0]
+    V = cr.reshape(r1, -1)
+    return float(np.max(np.abs(V @ V.conj().T - np.eye(r1))))
+
+
+class TdvpUpdate(probe.Contract):
+    """M7 event source: norm and energy of the live iterate after every micro-step"""
+
+    def __init__(self, name):
+        self.api = 'ode.' + name
+
+    def post(self, st, res, args, kwargs):
+        if TDVP is None:
+            return
+        sol = args[2]
+        if not tt_consistent(sol)[0]:
+            TDVP['trace'].append({'i': args[0], 'dir': args[-1], 'consistent': False})
+            return
+        x = vec(sol)
+        H = TDVP['H']
+        TDVP['trace'].append({'i': args[0], 'dir': args[-1], 'consistent': True, 'norm': float(np.linalg.norm(x)), 'energy': float(np.real(np.vdot(x, H @ x))),
+                              'ranks': list(sol.ranks)})
+
+
+class Tdvp(ApiImmut):
+    def __init__(self, name):
+        ApiImmut.__init__(self, 'ode.' + name)
+        self.name = name
+
+    def _v(self, args, kwargs):
+        if self.name == 'tdvp1site':
+            return parse(['operator', 'initial_value', 'step_size', 'number_of_steps', 'normalize'], {'normalize': 0, 'threshold': 0, 'max_rank': np.inf}, args, kwargs)
+        return parse(['operator', 'initial_value', 'step_size', 'number_of_steps', 'threshold', 'max_rank', 'normalize'], {'threshold': 1e-12, 'max_rank': 50, 'normalize': 0}, args, kwargs)
+
+    def pre(self, args, kwargs):
+        global TDVP
+        from . import monitors_sle
+        st = ApiImmut.pre(self, args, kwargs)
+        v = self._v(args, kwargs)
+        st['outer'] = TDVP is None
+        if st['outer'] and small(v['operator']):
+            TDVP = {'H': opm(v['operator']), 'trace': [], 'name': self.name}
+            monitors_sle.CURRENT_PROP = 'C11'
+        return st
+
+    def _end(self, st):
+        global TDVP
+        from . import monitors_sle
+        tr = None
+        if st is not None and st.get('outer'):
+            tr = TDVP
+            TDVP = None
+            monitors_sle.CURRENT_PROP = None
+        return tr
+
+    def exc(self, st, e, args, kwargs):
+        self._end(st)
+        ApiImmut.exc(self, st, e, args, kwargs)
+
+    def post(self, st, res, args, kwargs):
+        tr = self._end(st)
+        ApiImmut.post(self, st, res, args, kwargs)
+        c = core.ctx()
+        P11 = 'C11'
+        v = self._v(args, kwargs)
+        op, x0 = v['operator'], v['initial_value']
+        N = int(v['number_of_steps'])
+        h = v['step_size']
+        tags = ['scheme=' + self.name, 'normalize=%s' % v['normalize']]
+        good = isinstance(res, list) and all(_is_tt(x) and tt_consistent(x)[0] for x in res)
+        c.check(self.api, 'returns_list_of_consistent_tt', good, tags, prop=P11)
+        if not good:
+            return
+        c.check(self.api, 'one_state_per_step_plus_initial', len(res) == N + 1, tags, {'len': len(res), 'steps': N}, prop=P11)
+        c.check(self.api, 'initial_state_heads_trajectory', res[0] is x0, tags, prop=P11)
+        if len(res) != N + 1 or tr is None:
+            return
+        H = tr['H']
+        herm = float(np.max(np.abs(H - H.conj().T))) <= 1e-12 * max(float(np.max(np.abs(H))), 1e-300)
+        gauge = all(_gram_right_err(cr) <= 1e-10 for cr in x0.cores[1:])
+        if not herm or not gauge:
+            c.skip('tdvp_operator_not_hermitian' if not herm else 'tdvp_initial_state_not_right_orthonormal')
+            return
+        cplx = bool(np.iscomplexobj(H))
+        tags2 = tags + (['complex'] if cplx else []) + ['order=%d' % op.order if op.order <= 2 else 'order>=3']
+        nH = max(float(np.linalg.norm(H, 2)), 1e-300)
+        # conservation (one-site scheme: at every rank, at every micro-step and for every returned state)
+        if self.name == 'tdvp1site' and v['normalize'] == 0:
+            v0 = vec(x0)
+            n0, e0 = float(np.linalg.norm(v0)), float(np.real(np.vdot(v0, H @ v0)))
+            worst_n = max([abs(ev['norm'] - n0) for ev in tr['trace'] if ev.get('consistent')] + [0.0])
+            worst_e = max([abs(ev['energy'] - e0) for ev in tr['trace'] if ev.get('consistent')] + [0.0])
+            c.check(self.api, 'iterate_consistent_between_micro_steps', all(ev.get('consistent') for ev in tr['trace']), tags2, prop=P11)
+            c.check(self.api, 'norm_conserved_at_every_micro_step', worst_n <= 1e-9 * max(n0, 1e-300), tags2, {'worst_dev': worst_n, 'norm0': n0, 'micro_steps': len(tr['trace']), 'ranks': list(x0.ranks)}, prop=P11)
+            c.check(self.api, 'energy_conserved_at_every_micro_step', worst_e <= 1e-9 * nH * n0 ** 2, tags2, {'worst_dev': worst_e, 'energy0': e0, 'micro_steps': len(tr['trace']), 'ranks': list(x0.ranks)}, prop=P11)
+            d = op.order
+            want = (list(range(d)) + list(range(d - 1, -1, -1))) * N
+            c.check(self.api, 'sweep_order', [ev['i'] for ev in tr['trace']] == want, tags2, {'got': [ev['i'] for ev in tr['trace']][:40]}, prop=P11)
+            for k in range(1, len(res)):
+                xv = vec(res[k])
+                c.check(self.api, 'norm_conserved', abs(np.linalg.norm(xv) - n0) <= 1e-9 * n0, tags2, {'step': k}, prop=P11)
+                c.check(self.api, 'energy_conserved', abs(np.real(np.vdot(xv, H @ xv)) - e0) <= 1e-9 * nH * n0 ** 2, tags2, {'step': k}, prop=P11)
+            c.events['tdvp_micro_steps_traced'] += len(tr['trace'])
+        # exactness on representable dynamics
+        truncating = self.name != 'tdvp1site' and (v['threshold'] > 1e-10 or v['max_rank'] < max(max_ranks(x0.row_dims, [1] * x0.order)))
+        if is_maximal(x0) and not truncating:
+            import scipy.linalg as sla
+            with probe.oracle():
+                U = sla.expm(-1j * h * H)
+            for k in range(N):
+                y = U @ vec(res[k])
+                if v['normalize'] > 0:
+                    y = y / lib_norm(y, v['normalize'])
+                got = vec(res[k + 1])
+                err = float(np.linalg.norm(got - y)) / max(float(np.linalg.norm(y)), 1e-300)
+                c.check(self.api, 'exact_at_maximal_ranks', err <= 1e-8, tags2, {'step': k, 'h': h, 'rel_err': err, 'dims': list(op.row_dims), 'ranks': list(x0.ranks)}, prop=P11)
+        if v['normalize'] == 2:
+            for k in range(1, len(res)):
+                c.check(self.api, 'unit_2_norm', abs(np.linalg.norm(vec(res[k])) - 1) <= 1e-9, tags2, {'step': k}, prop=P11)
+        c.sig(self.api, list(op.row_dims), list(x0.ranks), N, cplx, is_maximal(x0), v['normalize'])
+
+
+class Krylov(ApiImmut):
+    def __init__(self):
+        ApiImmut.__init__(self, 'ode.krylov')
+
+    def post(self, st, res, args, kwargs):
+        ApiImmut.post(self, st, res, args, kwargs)
+        v = parse(['operator', 'initial_value', 'dimension', 'step_size', 'threshold', 'max_rank', 'normalize'], {'threshold': 1e-12, 'max_rank': 50, 'normalize': 0}, args, kwargs)
+        c = core.ctx()
+        P11 = 'C11'
+        op, x0 = v['operator'], v['initial_value']
+        if not (_is_tt(res) and tt_consistent(res)[0]) or not small(op):
+            return
+        H = opm(op)
+        n = H.shape[0]
+        herm = float(np.max(np.abs(H - H.conj().T))) <= 1e-12 * max(float(np.max(np.abs(H))), 1e-300)
+        xv = vec(x0)
+        if not herm or abs(np.linalg.norm(xv) - 1) > 1e-10:
+            c.skip('krylov_precondition_not_met')
+            return
+        if int(v['dimension']) < n or v['threshold'] > 1e-10 or v['max_rank'] < max(max_ranks(x0.row_dims, [1] * x0.order)):
+            c.skip('krylov_space_not_full')
+            return
+        import scipy.linalg as sla
+        with probe.oracle():
+            y = sla.expm(-1j * v['step_size'] * H) @ xv
+        if v['normalize'] > 0:
+            y = y / lib_norm(y, v['normalize'])
+        got = vec(res)
+        err = float(np.linalg.norm(got - y))
+        tags = (['complex'] if np.iscomplexobj(H) else [])
+        c.check(self.api, 'exact_with_full_krylov_space', err <= 1e-9, tags, {'err': err, 'n': n, 'h': v['step_size'], 'dims': list(op.row_dims)}, prop=P11)
+        c.events['krylov_err_log10_sum_x10'] += int(round(10 * np.log10(max(err, 1e-17))))
+        c.events['krylov_n'] += 1
+        c.sig(self.api, list(op.row_dims), bool(np.iscomplexobj(H)), int(v['dimension']))
+
+
+def install_tdvp():
+    global ode
+    ode = importlib.import_module('scikit_tt.solvers.ode')
+    if getattr(ode, '__vt_c11__', False):
+        return ode
+    for name in ('tdvp', 'tdvp1site', 'tdvp2site'):
+        probe.install(ode, name, Tdvp(name))
+    probe.install(ode, 'krylov', Krylov())
+    probe.install(ode, '__update_core_tdvp', TdvpUpdate('__update_core_tdvp'))
+    probe.install(ode, '__update_core_tdvp2site', TdvpUpdate('__update_core_tdvp2site'))
+    ode.__vt_c11__ = True
+    return ode
